@@ -110,6 +110,8 @@ func dirExists(p string) bool {
 	return err == nil && st.IsDir()
 }
 
+type bandAnalysis = band.Analysis
+
 // ---------------------------------------------------------------- built case
 
 type Built struct {
